@@ -244,7 +244,7 @@ def run(ctx, rep):
     for g_ in P.defined():
         if not (g_.file or '').endswith('scan.c'):
             continue
-        mine = [k for k, a in enumerate(g_.args) if a.get('name') == 'is_diff']
+        mine = _params_named(g_, 'is_diff')
         if not mine:
             continue
         my_al = [aid for aid, k in g_.arg_allocas().items() if k == mine[0]]
@@ -252,7 +252,7 @@ def run(ctx, rep):
             h_ = P.functions.get(c_.callee_full) if c_.callee_full else None
             if h_ is None or h_.decl:
                 continue
-            theirs = [k for k, a in enumerate(h_.args) if a.get('name') == 'is_diff']
+            theirs = _params_named(h_, 'is_diff')
             if not theirs:
                 continue
             npass += 1
@@ -262,3 +262,10 @@ def run(ctx, rep):
                       function=base(g_.name), construct='is_diff pass-through to %s' % base(h_.name))
     if npass < 5:
         raise AnalysisBroken('scan call chain with is_diff not recognised (%d calls)' % npass)
+
+
+def _params_named(g, name):
+    """indices of the parameters called `name` -- by the (reference-mapped) name of the local each parameter is spilled to, so that a
+    renamed parameter keeps its role; falls back to the declared name"""
+    byal = sorted(k for aid, k in g.arg_allocas().items() if (g.insts[aid].var or '') == name)
+    return byal or [k for k, a in enumerate(g.args) if a.get('name') == name]
